@@ -357,7 +357,10 @@ def run(tier):
 
     names = []
     for ei, e in enumerate(exts):
-        for v in variants(e):
+        vs = variants(e)
+        if tier == "quick":                     # lower case always, the other spellings alternately
+            vs = [e] + [v for v in vs if v != e][ei % 2:][:1]
+        for v in vs:
             names.append("/dir.d/name" + v)
         if tier == "thorough":
             for enc in encs[1:]:
@@ -365,9 +368,8 @@ def run(tier):
                 for v in variants(e):
                     names.append("/x" + v + enc)
                     names.append("/x" + v + enc.upper())
-        else:                                   # every extension with two of the encodings, rotating
-            for k in (0, 3):
-                names.append("/dir.d/name" + e + encs[1 + (ei + k) % (len(encs) - 1)])
+        else:                                   # every extension with one of the encodings, rotating
+            names.append("/dir.d/name" + e + encs[1 + ei % (len(encs) - 1)])
     for s in sufs:
         for v in variants(s):
             names += ["/a" + v, "/a.b" + v, "/a" + v + ".gz"]
@@ -477,9 +479,11 @@ def run(tier):
             heads = [HEAD_PROTOS[rot % 3]]
         for q in reqs_for(p, protos, heads):
             plan["default"].append((p, d, None) + q)
-    for q in reqs_for("big/big.bin", ["gopher", "gopherplus", "http", "gemini", "spartan"], []):
+    for q in reqs_for("big/big.bin", ["gopherplus", "http", "gemini"] if tier == "quick" else
+                      ["gopher", "gopherplus", "http", "gemini", "spartan"], []):
         plan["default"].append(("big/big.bin", big, None) + q)
-    full_files = [(p, d) for p, d in files if p in ("s/b0.bin", "s/b4096.bin", "s/b4097.bin", "s/b12289.bin", "s/t4097.txt",
+    full_files = [(p, d) for p, d in files if p in (("s/b0.bin", "s/b4097.bin", "s/t4097.txt") if tier == "quick" else
+                                                   ("s/b0.bin", "s/b4096.bin", "s/b4097.bin", "s/b12289.bin", "s/t4097.txt")) or p in (
                                                     "t/inv.txt", "n/page.html", "n/sp ace.txt", "n/q?.txt")
                   or p.startswith("k/")]
     live_long = [(p, d) for p, d in files if p.startswith("L/")]
@@ -488,7 +492,7 @@ def run(tier):
         for q in reqs_for(p, ["gopher", "gopherplus", "https", "wap", "gemini"] if quickcut else GET_PROTOS,
                           ["http"] if quickcut else HEAD_PROTOS):
             plan["full"].append((p, d, None) + q)
-    for q in reqs_for("big/big.bin", ["gopherplus"], []):
+    for q in reqs_for("big/big.bin", ["gopherplus"] if tier == "thorough" else [], []):
         plan["full"].append(("big/big.bin", big, None) + q)
     for p, d, sp in special:
         for q in reqs_for(p, GET_PROTOS, HEAD_PROTOS):
@@ -508,13 +512,14 @@ def run(tier):
 
     # the real ThreadingTCPServer on a socket, TLS requests through a real TLS client: what the
     # in-process transport cannot show (anything that depends on the descriptor under a TLS stream)
-    live_files = [(p, d) for p, d in files if p in ("s/b4095.bin", "s/b4096.bin", "s/b4097.bin", "s/b12289.bin",
-                                                    "s/t4097.txt", "t/inv.txt", "n/sp ace.txt")]
+    live_files = [(p, d) for p, d in files if p in ("s/b4095.bin", "s/b4096.bin", "s/b4097.bin", "s/t4097.txt", "t/inv.txt",
+                                                    "n/sp ace.txt") or (tier == "thorough" and p in ("s/b8193.bin", "s/b12289.bin"))]
     LIVE_PROTOS = GET_PROTOS if tier == "thorough" else ["sgopher", "gopherplus", "sgopherplus", "http", "https", "gemini", "spartan"]
     for p, d in live_files + live_long:
         for q in reqs_for(p, LIVE_PROTOS, ["https"]):
             plan["live"].append((p, d, None) + q)
-    for q in reqs_for("big/big.bin", ["sgopher", "sgopherplus", "https", "gemini"], []):
+    for q in reqs_for("big/big.bin", ["sgopherplus", "https", "gemini"] if tier == "quick" else
+                      ["sgopher", "sgopherplus", "https", "gemini"], []):
         plan["live"].append(("big/big.bin", big, None) + q)
     CONFIGS = (("default", None, "c04_world"), ("full", FULL_CONFIG, "c04_world"), ("fullpatt", PATT_CONFIG, "c04_world"),
                ("live", None, "c04_live"), ("livepatt", PATT_CONFIG, "c04_live"))
